@@ -90,6 +90,18 @@ class Hygiene:
         return False
 
     # -- queries -------------------------------------------------------------
+    def serious_loop_errors(self):
+        """what reached the loop's exception handler, without asyncio's "Task exception was never retrieved" about a
+        *sub-task* of a session that ended anyway (the dispatcher stops at the first failed task and never looks at the
+        others): untidy, but neither the server nor another session is affected.  The same message about the session
+        handler itself (Server.dispatcher) stays serious."""
+        out = []
+        for e in self.loop_errors:
+            if e.get("message") == "Task exception was never retrieved" and "Server.dispatcher" not in (e.get("future") or ""):
+                continue
+            out.append(e)
+        return out
+
     def pending_task_destroyed(self):
         return [e for e in self.loop_errors if e.get("message") and "destroyed but it is pending" in e["message"]]
 
